@@ -17,7 +17,7 @@ inductive PgFunc
   | map (fn elemFn : String)
   | struct (fn : String) (fields : List (String × String))   -- (json key, validator of the field)
   | union (fn : String) (cases : List (String × String))     -- (Kind, validator of the member)
-deriving Repr, Inhabited
+deriving Repr, Inhabited, DecidableEq
 
 def PgFunc.name : PgFunc → String
   | .basic fn _ | .enum fn _ _ _ _ | .array fn _ _ | .map fn _ | .struct fn _ | .union fn _ => fn
